@@ -7,7 +7,7 @@ import random
 
 from . import common
 
-LEVEL = 'exploration'
+LEVEL = 'other'
 
 CATS = ['sources', 'outputs', 'attachments', 'metadata', 'id', 'details']
 FLAG = {'sources': 's', 'outputs': 'o', 'attachments': 'a', 'metadata': 'm', 'id': 'i', 'details': 'd'}
@@ -186,7 +186,29 @@ def replay_case(where):
     return [o for o in out if o[2]['pair'] == where['pair'] and o[2]['ignored'] == where['ignored'] and o[2]['form'] == where['form']]
 
 
+def proof_part(res):
+    """Tier E: the category -> path table of set_notebook_diff_targets on every path; syntactic dispatch lemma at the recursive call sites."""
+    from contracts import kit_e
+    st = kit_e.dispatch_obligations(common.REPO)
+    if len(st) < 6:
+        raise common.CheckerDefect('dispatch obligations missing')
+    res.obligations += len(st)
+    bad = [t for t, ok in st if not ok]
+    res.discharged += len(st) - len(bad)
+    res.backends['call-site scan(syntactic)'] = len(st) - len(bad)
+    res.functions['recursive differ call sites (generic.py, snakes.py, notebooks.diff_single_outputs)'] = 'proved' if not bad else 'failed'
+    for t in bad[:3]:
+        res.violation('dispatch obligation fails: %s' % t, {'obligation': 'c14-dispatch', 'text': t, 'kind': 'failed-call-site-obligation'}, no_input=True)
+    failed = []
+    for job in kit_e.C14_JOBS:
+        f = common.prove_paths(res, job[0], job[1], job[2], default_raises=job[3])
+        failed += f or []
+    return failed
+
+
 def run(res):
+    failed = proof_part(res)
+    nviol = len(res.violations)
     q = res.tier == 'quick'
     jobs = [(res.seed * 4099 + s, 30 if q else 120) for s in range(32 if q else 96)]
     seen = set()
@@ -207,6 +229,12 @@ def run(res):
                 continue
             seen.add(kind)
             res.violation('%s [%s]' % (detail, kind), dict(where, replay_kind='call', module='checks.c14', function='replay_case', args=[where]))
+    witness = res.violations[nviol]['what'][:300] if failed and len(res.violations) > nviol else None
+    common.report_path_failures(res, failed, witness)
+    res.coverage['explanation'] = ('Proved (Tier E, all 16 paths of set_notebook_diff_targets): every path of each category is switched by `not <flag>`, the key filters for details/id/'
+                                   'attachments are set (or reset with False) on every call, nothing else is switched; proved (call-site scan): every recursive differ call in diff_lists, '
+                                   'diff_dicts, compute_diff_from_snakes and diff_single_outputs takes its callee from config.differs[subpath] and hands on path and config. NOT proved '
+                                   '(bounded stand-in): the resulting diff hides exactly the ignored categories for every notebook pair; flag parsing (process_exclusive_ignorables).')
     res.coverage['rule'] = ('notebook pairs from the grammar (every second one differing from A only inside the ignored categories) x 8 of the 64 ignore subsets per pair '
                             '(always the full and the empty set) x 3 ways of giving them (negative flags, positive flags through the real argparse actions and '
                             'process_diff_flags; an Ignore mapping through set_notebook_diff_ignores); oracle: category table of the property statement, masking of ignored fields')
